@@ -118,7 +118,6 @@ def showResult : Result → String
   | .panic => "panic"
   | .fuel => "fuel"
   | .loop => "loop"
-  | .huge => "huge"
 
 /-- path components without `.` and empty ones (what the file system ignores) -/
 def normPath (p : Bytes) : Bytes :=
